@@ -1,6 +1,7 @@
 SPECIFICATION Spec
 CONSTANTS
   Depth = 2
+  Seeded = FALSE
   MaxOps = 0
 INVARIANT Dump
 CHECK_DEADLOCK FALSE
